@@ -251,8 +251,12 @@ class AbsFile(io.IOBase):
         self.close()
         return False
 
+    def readinto(self, b):
+        # (every binary file object has it: code that probes for the method sees it; filling a caller-supplied buffer is outside the model)
+        raise Unsupported("readinto() on an abstract file")
+
     def __getattr__(self, name):
-        if name.startswith("_") or name in ("name", "preset", "csv_rows", "avro", "outer", "errors", "newline"):
+        if name.startswith("_") or name in ("name", "preset", "csv_rows", "avro", "outer", "errors", "newline", "codec_truncated"):
             raise AttributeError(name)
         raise Unsupported(f"file method {name!r} is outside the file model")
 
